@@ -44,6 +44,27 @@ def main():
         r1d, z1d, psi2d, psi1d = E.tokamak_arrays(geom, 65, 65)
         inputs[iname] = {"r1d": r1d, "z1d": z1d, "psi2d": psi2d, "psi1d": psi1d, "fpol1d": 1.0 - 0.1 * psi1d ** 2, "pres": 1000.0 * (0.2 + psi1d ** 2)}
     pristine_all = {i: {k: v.copy() for k, v in a.items()} for i, a in inputs.items()}
+    # via = "gfile": the route of a user with EFIT files - each input set is a geqdsk text, and before a build the ONE file the user works
+    # with (current.geqdsk) is overwritten with it and read with tokamak.read_geqdsk(open file); what the caller owns is then the file
+    via = job.get("via", "arrays")
+    gtext = {}
+    gpath = os.path.join(outdir, "current.geqdsk")
+    if via == "gfile":
+        import io
+        from hypnotoad.geqdsk import _geqdsk
+
+        for iname, geom in (("I1", "lsn"), ("I2", "lsn_tilt")):
+            a = inputs[iname]
+            simagx, sibdry, (rm, zm) = E.gfile_psi_range(geom, 65, 65)
+            p1 = np.linspace(simagx, sibdry, 65)
+            wl = E.default_wall()
+            data = {"nx": 65, "ny": 65, "rdim": float(a["r1d"][-1] - a["r1d"][0]), "zdim": float(a["z1d"][-1] - a["z1d"][0]), "rcentr": 1.5, "bcentr": 1.0,
+                    "rleft": float(a["r1d"][0]), "zmid": float(0.5 * (a["z1d"][0] + a["z1d"][-1])), "rmagx": rm, "zmagx": zm, "simagx": simagx, "sibdry": sibdry,
+                    "cpasma": 1e6, "fpol": 1.0 - 0.1 * p1 ** 2, "pres": 1000.0 * (0.2 + p1 ** 2), "qpsi": np.zeros(65), "psi": a["psi2d"],
+                    "rlim": [q[0] for q in wl], "zlim": [q[1] for q in wl]}
+            buf = io.StringIO()
+            _geqdsk.write(data, buf)
+            gtext[iname] = buf.getvalue()
     # the caller also owns the wall list and the settings dictionaries: they are passed as they are (not copies), kept between builds, and
     # must come back unchanged like the arrays
     import copy as _copy
@@ -79,14 +100,26 @@ def main():
             before = {k: v.copy() for k, v in arrays.items()}
             try:
                 with E.quiet():
-                    eq = tokamak.TokamakEquilibrium(arrays["r1d"], arrays["z1d"], arrays["psi2d"], arrays["psi1d"], arrays["fpol1d"], pressure=arrays["pres"],
-                                                    wall=wall_obj, settings=optobjs[name][0], nonorthogonal_settings=optobjs[name][1])
+                    if via == "gfile":
+                        with open(gpath, "w") as gfh:
+                            gfh.write(gtext[iname])
+                        with open(gpath) as gfh:
+                            eq = tokamak.read_geqdsk(gfh, settings=optobjs[name][0], nonorthogonal_settings=optobjs[name][1])
+                        if isinstance(eq, tuple):       # (partial object, exception) when the constructor raised
+                            raise eq[1]
+                    else:
+                        eq = tokamak.TokamakEquilibrium(arrays["r1d"], arrays["z1d"], arrays["psi2d"], arrays["psi1d"], arrays["fpol1d"], pressure=arrays["pres"],
+                                                        wall=wall_obj, settings=optobjs[name][0], nonorthogonal_settings=optobjs[name][1])
                 out = "ok"
             except BaseException as e:  # noqa
                 out = "refused"
                 eq = None
                 status.setdefault("exc", []).append("%s: %s" % (type(e).__name__, str(e)[:150]))
             changed = [k for k in arrays if not np.array_equal(arrays[k], before[k])]
+            if via == "gfile":
+                with open(gpath) as gfh:
+                    if gfh.read() != gtext[iname]:
+                        changed.append("gfile")
             if wall_obj != wall_pristine:
                 changed.append("wall")
             if optobjs[name][0] != opts or optobjs[name][1] != opts:
